@@ -144,6 +144,17 @@ pub fn known_active(listed: bool) -> bool {
     listed && std::env::var_os("VK_NO_EXCLUDE").is_none()
 }
 
+/// Stub for `core::mem::swap` under Kani (`-Z stubbing`): the same exchange done with three typed moves. std's version
+/// swaps byte chunks, after which CBMC can no longer read an enum discriminant back as a constant (measured: the state
+/// swap in `Runtime::execute` made a one-path harness explore the whole instruction dispatcher and run out of time).
+pub fn typed_swap<T>(a: &mut T, b: &mut T) {
+    unsafe {
+        let t = core::ptr::read(a);
+        core::ptr::write(a, core::ptr::read(b));
+        core::ptr::write(b, t);
+    }
+}
+
 /// The assertion the solver must discharge for all values (Kani requires a literal message);
 /// natively a panic, which the replay runner reports as a reproduced violation.
 #[macro_export]
@@ -189,6 +200,7 @@ macro_rules! vk_cover {
 macro_rules! vk_harness {
     ($name:ident, $body:block) => {
         #[cfg_attr(kani, kani::proof)]
+        #[cfg_attr(kani, kani::stub(std::mem::swap, crate::vk::typed_swap))]
         #[allow(dead_code)]
         pub(crate) fn $name() $body
     };
